@@ -207,6 +207,10 @@ pub fn explore<F>(profiles: &[Profile], seed: u64, f: F) -> Stats
 where
     F: Fn(&mut Env, &Leaf) + Sync,
 {
+    for p in profiles {
+        // a profile without seeds explores nothing: never silently
+        assert!(!p.seeds.is_empty(), "profile '{}' has no seed (planner could not build any)", p.name);
+    }
     // work items: (profile, seed, fixed prefix of up to 2 letters)
     let mut items: Vec<(usize, usize, Vec<usize>)> = vec![];
     for (pi, p) in profiles.iter().enumerate() {
